@@ -36,7 +36,7 @@ def scope_str(sc):
 def main(run):
     b = BOUNDS[run.tier]
     K, NAMES = b["entries"], b["names"]
-    run.bounds = {"entries": f"<= {K} inserts, each any of 5 scopes (all, build, launch, process p, process q) x 5 behaviours x names {NAMES}",
+    run.bounds = {"entries": f"<= {K} inserts; the first two each any of 5 scopes (all, build, launch, process p, process q) x 5 behaviours x names {NAMES}; a third one (thorough) in {{all, process p}} x {{append, delim, override}} on {NAMES[0]}",
                   "values": "arbitrary strings (unbounded, may be empty)", "query scope": "all, build, launch, process p, unknown process r",
                   "starting environment": "each name unset or set to an arbitrary (possibly empty) string"}
     run.assumptions = ["OsString modelled as a string of code units; HashMap/BTreeMap as association lists (BTreeMap ordered by the key's Ord: "
@@ -72,9 +72,15 @@ def main(run):
         le = P.call(ctx, le_new, [], tyenv={})
         leb = Box(le)
         for i in range(k):
-            sc = SCOPES[ctx.choose([True] * len(SCOPES), f"scope{i}")]
-            beh = BEH[ctx.choose([True] * 5, f"beh{i}")]
-            name = NAMES[ctx.choose([True] * len(NAMES), f"name{i}")]
+            if i < 2:
+                sc = SCOPES[ctx.choose([True] * len(SCOPES), f"scope{i}")]
+                beh = BEH[ctx.choose([True] * 5, f"beh{i}")]
+                name = NAMES[ctx.choose([True] * len(NAMES), f"name{i}")]
+            else:
+                # a third insert multiplies the space by 50: it ranges over the shapes that interact with the first two
+                sc = [SCOPES[0], SCOPES[3]][ctx.choose([True, True], f"scope{i}")]
+                beh = ["Append", "Delimiter", "Override"][ctx.choose([True] * 3, f"beh{i}")]
+                name = NAMES[0]
             val = z3.String(f"v{i}")
             ents.append((sc, beh, name, val))
             P.call(ctx, le_insert, [Ref(leb), scope_adt(sc), Adt("ModificationBehavior", beh, []), name, val], tyenv={})
